@@ -38,9 +38,7 @@ PROPS = {
         "trusted_base": ["modelled: sampling.rs (multiply, estimate_samples_count, random_sample, sampling, sample_blocks), LightClientProtocol::build_prove_request_content"],
     },
     "C01": {
-        "op": "c01",
-        "run_module": "RunC01",
-        "n": {"quick": 200, "thorough": 3000},
+        "ops": [("c01", "RunC01", {"quick": 200, "thorough": 3000}), ("sys", "RunSys", {"quick": 60, "thorough": 1000})],
         "rule": "part A: check_if_response_is_matched called directly on honest-shaped header lists (reorg / sampled / last-N sections derived from a "
                 "ground-truth difficulty table) and 3 mutations each (drop, duplicate, swap, number, parent total difficulty, compact, boundary, "
                 "difficulties, start, last number, append, empty, reorg section, extra header); part B: the whole handler through received() on "
